@@ -116,7 +116,8 @@ _opt_enc = st.one_of(st.none(), st.none(), st.sampled_from(FOREIGN_POOL))
 
 @st.composite
 def docs(draw, allow_unencoded=True, allow_nonobject_meta=False,
-         max_changes=3, max_files=3, meta_min_size=0):
+         max_changes=3, max_files=3, meta_min_size=0,
+         unknown_options=False):
     crlf = draw(st.integers(0, 3)) == 0
     main_enc = draw(st.one_of(st.sampled_from(FOREIGN_POOL),
                               st.sampled_from(FOREIGN_POOL),
@@ -239,6 +240,17 @@ def docs(draw, allow_unencoded=True, allow_nonobject_meta=False,
             if draw(st.booleans()):
                 diff('...diff')
 
+    # other producers may add options of their own
+    for sec in sections:
+        if unknown_options and draw(st.integers(0, 9)) == 0:
+            sec['extra'] = [[draw(st.integers(0, 6)),
+                             draw(st.sampled_from(
+                                 ['x-range', 'vendor', 'tool_version', 'note',
+                                  'X', 'a1'])),
+                             draw(st.sampled_from(
+                                 ['--7', '-', '1-', '--', 'v1', '7', '-3',
+                                  '007', 'a/b', '1.5', 'none']))]]
+
     return {'crlf_headers': crlf, 'sections': sections,
             'trailing_blank': draw(st.sampled_from([0, 0, 1, 2]))}
 
@@ -325,8 +337,13 @@ def render(doc):
 
         if kind == 'container':
             if sid == 'diffx':
-                if d == 'bad-version':
-                    pairs.append(('version', '2.0'))
+                if d and d.startswith('bad-version'):
+                    pairs.append(('version', {
+                        'bad-version': '2.0', 'bad-version-1.00': '1.00',
+                        'bad-version-01.0': '01.0', 'bad-version-1': '1',
+                        'bad-version-1.0.0': '1.0.0',
+                        'bad-version-10': '10', 'bad-version-1.-0': '1.-0',
+                        'bad-version-v': 'v1.0'}[d]))
                 elif d != 'missing-version':
                     pairs.append(('version', '1.0'))
 
@@ -623,6 +640,10 @@ def _short(v):
 
 def applicable_defects(doc):
     out = [(0, 'bad-version'), (0, 'missing-version')]
+    n = len(doc['sections'])
+    out.append((0, ['bad-version-1.00', 'bad-version-01.0', 'bad-version-1',
+                    'bad-version-1.0.0', 'bad-version-10',
+                    'bad-version-1.-0', 'bad-version-v'][n % 7]))
 
     for i, s in enumerate(doc['sections']):
         kind = spec.kind_of(s['id'])
